@@ -405,3 +405,87 @@ fn c14_maintenance_round_drops_stale_nodes_and_pings_the_quiet_ones() {
     core::mem::forget(to_ping);
     core::mem::forget(c);
 }
+
+// =============================================================================================
+// C07 (and the replica-set selection of C01): what a finished lookup reports / stores to
+// =============================================================================================
+fn three_nodes(slab: &mut [core::mem::MaybeUninit<Node>; 3], n: usize) -> Vec<Node> {
+    let mut i = 0usize;
+    while i < n {
+        slab[i].write(crate::common::verif_kani::node::node_aged(id1(0x30 + i as u8), SocketAddrV4::new((50 + i as u32).into(), 5000 + i as u16), 0));
+        i += 1;
+    }
+    // stack-backed buffer (read-only here): see common::routing_table::verif_kani::stack_nodes
+    unsafe { Vec::from_raw_parts(slab.as_mut_ptr() as *mut Node, n, 3) }
+}
+
+/// find_node lookups report the first (up to 20) candidates of the accumulator, in its order
+#[kani::proof]
+#[kani::unwind(6)]
+#[kani::stub(std::time::Instant::now, clock::mock_now)]
+#[kani::stub(getrandom::fill, fill_const_memset)]
+fn c07_a_finished_find_node_lookup_reports_the_closest_candidates_in_order() {
+    let c = core(true);
+    let mut q = iq::query(0, id1(0x10));
+    let n: usize = kani::any();
+    kani::assume(n <= 3);
+    let mut slab: [core::mem::MaybeUninit<Node>; 3] = unsafe { core::mem::MaybeUninit::uninit().assume_init() };
+    iq::set_closest(&mut q, crate::common::verif_kani::closest_nodes::with_nodes(id1(0x10), three_nodes(&mut slab, n)));
+    let r = c.closest_nodes_from_done_iterative_query(&q);
+    assert!(r.len() == n, "C07: the lookup reports every one of the (up to 20) closest candidates");
+    let mut i = 0usize;
+    while i < 3 {
+        if i < n {
+            assert!(r[i].address().port() == 5000 + i as u16, "C07: ... in the accumulator's order");
+        }
+        i += 1;
+    }
+    kani::cover!(n == 3);
+    core::mem::forget(r);
+    core::mem::forget(q);
+    core::mem::forget(c);
+}
+
+fn fill_const_memset(dest: &mut [u8]) -> Result<(), getrandom::Error> {
+    dest.fill(3);
+    Ok(())
+}
+
+/// every other lookup (get_peers, get_signed_peers, get value: the ones puts store to) reports the
+/// take_until_secure prefix of its RESPONDERS, computed with the statistics of the table that
+/// matches the request kind
+#[kani::proof]
+#[kani::unwind(6)]
+#[kani::stub(std::time::Instant::now, clock::mock_now)]
+#[kani::stub(getrandom::fill, fill_const_memset)]
+#[kani::stub(ClosestNodes::take_until_secure, crate::common::verif_kani::closest_nodes::stub_take_until_secure)]
+fn c07_a_finished_get_lookup_reports_the_secure_prefix_of_its_responders() {
+    use crate::common::verif_kani::closest_nodes as cn;
+    let mut c = core(true);
+    crate::common::verif_kani::routing_table::set_stats(&mut c.routing_table, (4, 40.0, 2, 2000.0, 14));
+    crate::common::verif_kani::routing_table::set_stats(&mut c.signed_peers_routing_table, (4, 40.0, 3, 900.0, 9));
+    let kind: u8 = kani::any();
+    kani::assume(kind >= 1 && kind <= 3);
+    let mut q = iq::query(kind, id1(0x10));
+    let mut slab: [core::mem::MaybeUninit<Node>; 3] = unsafe { core::mem::MaybeUninit::uninit().assume_init() };
+    iq::set_responders(&mut q, cn::with_nodes(id1(0x10), three_nodes(&mut slab, 3)));
+    let take: usize = kani::any();
+    kani::assume(take <= 3);
+    unsafe { cn::TUS_TAKE = take };
+    let r = c.closest_nodes_from_done_iterative_query(&q);
+    assert!(unsafe { cn::TUS_CALLS } == 1, "C07: the nodes a write goes to are chosen by take_until_secure");
+    let want_args = if kind == 2 { (300, 3) } else { (1000, 7) };
+    assert!(unsafe { cn::TUS_ARGS } == want_args, "... with the size estimate and subnet average of the table that matches the request kind (signed-peers table for get_signed_peers)");
+    assert!(r.len() == take, "... and exactly that prefix of the RESPONDERS is reported");
+    let mut i = 0usize;
+    while i < 3 {
+        if i < take {
+            assert!(r[i].address().port() == 5000 + i as u16);
+        }
+        i += 1;
+    }
+    kani::cover!(kind == 2 && take == 2);
+    core::mem::forget(r);
+    core::mem::forget(q);
+    core::mem::forget(c);
+}
